@@ -33,6 +33,9 @@ def bounds(tier):
 
 def plan(tier, seed):
     shards = [("sup",) + s for s in c01.plan(tier, seed) if s[0] != "learn"]
+    # the classifier left by learn() (every RNG answer sequence): its prototypes against the samples
+    # its nodes hold
+    shards += [("learn", pi) for pi in range(24)]
     for a, b in E.chunks(E.n_graphs(4, 3), 250):
         shards.append(("semi", 3, 1, 3, True, a, b))
     for a, b in E.chunks(E.n_graphs(5, 2), 128):
@@ -92,7 +95,18 @@ def run_case(prog, res=None, model=None):
         raise
     except Exception as ex:
         return viol(prog, "fit raised %r" % (ex,), "fit raised")
-    lab = tuple(prog["labels"])
+    return judge(prog, obs, Wd, tuple(prog["labels"]), res)
+
+
+def judge_learned(prog, obs, Wd, labels, model=None):
+    v = judge(prog, obs, Wd, tuple(labels), None)
+    if v:
+        v["explanation"] = "classifier left by learn(): " + v["explanation"]
+        v["fingerprint"] += " (after learn)"
+    return v
+
+
+def judge(prog, obs, Wd, lab, res=None):
     nl = len(lab)
     nodes = obs["nodes"]
     S = frozenset(i for i in range(len(nodes)) if nodes[i]["status"] == 1)
@@ -138,7 +152,7 @@ def viol(prog, prob, sym, obs=None):
     return {"check": "prototypes", "program": prog, "observed": obs if obs else prob,
             "allowed": "boundary endpoints of some minimum spanning tree",
             "explanation": prob,
-            "fingerprint": "%s._find_prototypes: %s" % (prog["model"], sym)}
+            "fingerprint": "%s._find_prototypes: %s" % (prog.get("model", "SupervisedOPF"), sym)}
 
 
 _PREV = {}
@@ -150,6 +164,8 @@ def _key(prog):
 
 def run(shard, seed):
     res = Result()
+    if shard[0] == "learn":
+        return c01.run_learn(shard, seed, res, judge_learned)
     k = 0
     for prog in programs(shard, seed):
         try:
@@ -170,8 +186,7 @@ def run(shard, seed):
         k += 1
         if v:
             prev = _PREV.get(_key(prog)) if _key(prog) is not None else None
-            if prev is not None and "previous" not in v["program"]:
-                v["program"] = dict(v["program"], previous=prev)
+            sup.with_history(v, prev)
             res.violations.append(v)
             if res.full:
                 break
@@ -180,4 +195,6 @@ def run(shard, seed):
 
 
 def replay(case):
+    if "learn" in case["program"]:
+        return c01.learn_case(case["program"], judge_learned)[1]
     return sup.replay_with_history(run_case, case["program"])
